@@ -19,6 +19,10 @@ def constants_for(impl, cfg, nslots, deviations=()):
         'ImplWsReadTimeout': 'TRUE' if impl == 'async' else 'FALSE',
         'Deviations': '{' + ', '.join('"%s"' % d for d in sorted(deviations)) + '}',
         'Horizon': 100000000,
+        'Transports': '{' + ', '.join('"%s"' % t for t in (cfg.get('transports') or
+                                                           ['polling', 'websocket'])) + '}',
+        'Alpha': '{}', 'MaxQ': 0, 'MaxReq': 0, 'MaxPings': 0, 'MaxEv': 0, 'EnvAnytime': 'FALSE',
+        'BodyProfile': '"none"', 'FrameProfile': '"none"',
     }
 
 
